@@ -141,7 +141,7 @@ fn prog_label(ops: &[Op]) -> String {
 }
 
 /// Run one program under one consumer schedule; returns the merged log and findings.
-fn run_program(ops: &[Op], n_gates: usize, mode: u64, variant: u64, rng: &mut Rng) -> (Vec<PEv>, Vec<(String, String)>) {
+fn run_program(ops: &[Op], n_gates: usize, mode: u64, variant: u64, rng: &mut Rng, ask_terminated: bool) -> (Vec<PEv>, Vec<(String, String)>) {
     let log: PLog = Rc::new(RefCell::new(vec![]));
     let gates: PGates = Rc::new(RefCell::new((0..n_gates).map(|_| PGate::default()).collect()));
     let ret_val = 7000 + ops.len() as u32;
@@ -228,7 +228,8 @@ fn run_program(ops: &[Op], n_gates: usize, mode: u64, variant: u64, rng: &mut Rn
             seen = root.count();
             poll_again = false;
             last_pending = false;
-            let term_before = gen.is_terminated();
+            // (the Miri layer of this check runs with the aliasing model switched off, see DESIGN §13)
+            let term_before = ask_terminated && gen.is_terminated();
             let wk = waker(root.clone());
             let mut cx = Context::from_waker(&wk);
             let res = guard(|| gen.as_mut().poll_next(&mut cx));
@@ -266,7 +267,7 @@ fn run_program(ops: &[Op], n_gates: usize, mode: u64, variant: u64, rng: &mut Rn
                     }
                     ended = true;
                     // a stream that has ended keeps reporting it
-                    if !gen.is_terminated() {
+                    if ask_terminated && !gen.is_terminated() {
                         viol.push(("c13a-is-terminated-consistent".into(), "stream returned None but is_terminated() is false".into()));
                     }
                 }
@@ -384,7 +385,7 @@ pub fn run(args: &Args, r: &mut Report) {
     r.assume("how far the installer may run ahead of the observer between two progress values is not part of the statement");
     let miri = args.layer == "miri";
     // ---- (a)
-    let n = if miri { 30 } else { args.budget(200_000, 2_000_000) };
+    let n = if miri { 150 } else { args.budget(200_000, 2_000_000) };
     for i in 0..n {
         if args.skip(i) {
             continue;
@@ -392,7 +393,7 @@ pub fn run(args: &Args, r: &mut Report) {
         let mut rng = Rng::derive(args.seed, args.shard, 13, i);
         let (ops, n_gates) = gen_program(&mut rng);
         let mode = i % 3;
-        let (plog, viol) = run_program(&ops, n_gates, mode, 0, &mut rng);
+        let (plog, viol) = run_program(&ops, n_gates, mode, 0, &mut rng, true);
         let label = prog_label(&ops);
         r.eval(crate::common::shape_of(&["prog", &label, &format!("m{}", mode)]), ops.len() > 1);
         r.hit("c13a-program-ran");
@@ -419,7 +420,7 @@ pub fn run(args: &Args, r: &mut Report) {
         }
     }
     // ---- (b)
-    let nb = if miri { 3 } else { args.budget(30_000, 300_000) };
+    let nb = if miri { 8 } else { args.budget(30_000, 300_000) };
     for j in 0..nb {
         let i = 30_000_000 + j;
         if args.skip(i) {
